@@ -137,10 +137,11 @@ pub fn run(tier: &str, seed: u64, out: &Path) -> i32 {
             o.sample(json!({"program": name, "config": cfg_text(cfg), "src_bytes": src.len(), "out2021_eq_out2024": r[2].out == r[3].out}));
         }
     }
+    boundary_family(&mut o, &progs, thorough, seed, out, &mut distinct);
     o.count_n("cases_where_2021_and_2024_differ(x editions)", nontrivial);
     o.notes.push("non-trivial case = one (program, config, edition) comparison against the frozen binary; the distribution counts how many cases actually exercise a gate (2021 output differs from 2024 output)".into());
     // account the direct comparisons as evaluations
-    let evals = o.distribution.get("b:compared").copied().unwrap_or(0) + o.distribution.get("a:compared").copied().unwrap_or(0);
+    let evals = o.distribution.get("b:compared").copied().unwrap_or(0) + o.distribution.get("a:compared").copied().unwrap_or(0) + o.distribution.get("bw:compared").copied().unwrap_or(0);
     o.count_n("evaluations_direct", evals);
     o.direct_evals = evals;
     o.direct_distinct = distinct.len() as u64;
@@ -149,4 +150,98 @@ pub fn run(tier: &str, seed: u64, out: &Path) -> i32 {
 
 fn jobs_n() -> usize {
     jobs()
+}
+
+/// the pinned binary on a batch of files that share one configuration: `--emit files` on scratch copies.
+/// Returns None for the whole batch when the run did not end with status 0 (the caller then runs them one by one).
+fn frozen_batch(dir: &Path, srcs: &[&str], cfg: &[(String, String)], timeout: Duration) -> Option<Vec<Vec<u8>>> {
+    let _ = std::fs::remove_dir_all(dir);
+    std::fs::create_dir_all(dir).ok()?;
+    let mut cmd = Command::new("/verif/frozen/rustfmt-pinned");
+    cmd.current_dir(dir).arg("--config-path").arg("/verif/frozen/empty.toml").arg("--emit").arg("files");
+    if !cfg.is_empty() {
+        cmd.arg("--config").arg(cfg_text(cfg));
+    }
+    for (i, s) in srcs.iter().enumerate() {
+        let f = dir.join(format!("i{}.rs", i));
+        std::fs::write(&f, s).ok()?;
+        cmd.arg(format!("i{}.rs", i));
+    }
+    let r = run_cmd(&mut cmd, b"", timeout);
+    let res = if r.code == Some(0) && !r.timed_out { (0..srcs.len()).map(|i| std::fs::read(dir.join(format!("i{}.rs", i))).ok()).collect::<Option<Vec<_>>>() } else { None };
+    let _ = std::fs::remove_dir_all(dir);
+    res
+}
+
+/// Boundary-width family (see boundary.rs): the items of the fixtures at the widths where one of their lines is exactly
+/// as wide as the page, under every released style edition, working tree against the pinned binary.
+fn boundary_family(o: &mut Outcome, progs: &[corpus::Program], thorough: bool, seed: u64, out: &Path, distinct: &mut std::collections::HashSet<String>) {
+    let mut its = crate::boundary::items(progs);
+    for it in its.iter_mut() {
+        it.cfg.retain(|(k, _)| k != "style_edition" && k != "version");
+    }
+    let plan = crate::boundary::plan(&its, Duration::from_secs(10));
+    let mut pairs: Vec<(usize, usize)> = vec![];
+    for (i, ws) in plan.iter().enumerate() {
+        for w in ws {
+            pairs.push((i, *w));
+        }
+    }
+    o.count_n("bw:planned (item, width) pairs", pairs.len() as u64);
+    let chosen: Vec<(usize, usize)> = if thorough {
+        pairs
+    } else {
+        let mut r = Rng::new(seed ^ 0xb09);
+        (0..10000usize.min(pairs.len())).map(|_| *r.pick(&pairs)).collect()
+    };
+    // group by configuration (options, width, edition)
+    let mut groups: std::collections::BTreeMap<String, (Vec<(String, String)>, Vec<usize>)> = Default::default();
+    for (k, (i, w)) in chosen.iter().enumerate() {
+        for e in EDITIONS {
+            let cfg = merge_cfg(&its[*i].cfg, &[("max_width".into(), w.to_string()), ("style_edition".into(), e.into())]);
+            groups.entry(cfg_text(&cfg)).or_insert_with(|| (cfg.clone(), vec![])).1.push(k);
+        }
+    }
+    let glist: Vec<(Vec<(String, String)>, Vec<usize>)> = groups.into_values().collect();
+    o.count_n("bw:pinned-binary batches", glist.len() as u64);
+    // working tree, in-process
+    let mut jobs = vec![];
+    for (cfg, ks) in &glist {
+        for k in ks {
+            jobs.push(Job { src: its[chosen[*k].0].src.clone(), cfg: cfg.clone(), file_lines: None });
+        }
+    }
+    let cur = pool::run_jobs(&jobs, jobs_n(), Duration::from_secs(5));
+    // pinned binary, batched
+    let scratch = out.join("bw");
+    let idx: Vec<usize> = (0..glist.len()).collect();
+    let fro: Vec<Vec<Option<Vec<u8>>>> = par_map(&idx, |gi| {
+        let (cfg, ks) = &glist[*gi];
+        let srcs: Vec<&str> = ks.iter().map(|k| its[chosen[*k].0].src.as_str()).collect();
+        match frozen_batch(&scratch.join(format!("g{}", gi)), &srcs, cfg, Duration::from_secs(60)) {
+            Some(v) => v.into_iter().map(Some).collect(),
+            None => srcs.iter().map(|s| { let r = frozen(s, cfg, Duration::from_secs(5)); if r.code == Some(0) && !r.timed_out { Some(r.stdout) } else { None } }).collect(),
+        }
+    });
+    let _ = std::fs::remove_dir_all(&scratch);
+    let mut j = 0;
+    for (gi, (cfg, ks)) in glist.iter().enumerate() {
+        for (n, k) in ks.iter().enumerate() {
+            let r = &cur[j];
+            j += 1;
+            let it = &its[chosen[*k].0];
+            let f = match &fro[gi][n] { Some(f) => f, None => { o.count("bw:pinned-reports-error"); continue; } };
+            if r.status == Status::Timeout {
+                o.count("bw:timeout");
+                continue;
+            }
+            o.count("bw:compared");
+            distinct.insert(format!("{}|{}", it.id, cfg_text(cfg)));
+            let same = r.status == Status::Ok && r.out.as_bytes() == &f[..];
+            if !same {
+                o.direct_failures.push(json!({"sig": "c09:differs-from-pinned-release", "what": format!("boundary width: the working tree's text differs from the pinned release's ({})", cfg_text(cfg)), "program": it.id, "config": cfg_text(cfg), "src": it.src, "pinned": String::from_utf8_lossy(f), "working_tree": r.out, "working_tree_status": format!("{:?}", r.status)}));
+            }
+        }
+    }
+    o.notes.push("boundary family: top-level items of the fixtures at the widths within one column of the length of a line of the item's own output at max_width 200 (where a construct is exactly as wide as the page), x 4 released style editions; thorough takes every such pair, quick a seeded sample of 10000".into());
 }
